@@ -142,6 +142,13 @@ func (t *tr) assignedIn(nodes ...ast.Node) []*types.Var {
 			return true
 		})
 	}
+	for _, n := range nodes {
+		if t.effectful(n) {
+			for _, v := range t.effVars() {
+				set[v] = true
+			}
+		}
+	}
 	var out []*types.Var
 	for v := range set {
 		out = append(out, v)
@@ -180,6 +187,7 @@ func (t *tr) varsUsed(e ast.Node) map[*types.Var]bool {
 // prescan computes, flow-insensitively, which locals are written through (element writes, copy / Put
 // destinations) and which slice-typed locals only ever hold memory allocated in this function.
 func (t *tr) prescan(body *ast.BlockStmt) {
+	t.findOpaqueVars(body)
 	t.writePos = map[*types.Var][]token.Pos{}
 	t.nonFreshPos = map[*types.Var][]token.Pos{}
 	t.loops = nil
@@ -221,7 +229,7 @@ func (t *tr) prescan(body *ast.BlockStmt) {
 					}
 				}
 			}
-		case *ast.GoStmt, *ast.DeferStmt, *ast.SelectStmt, *ast.SendStmt, *ast.TypeSwitchStmt, *ast.LabeledStmt:
+		case *ast.GoStmt, *ast.DeferStmt, *ast.SelectStmt, *ast.TypeSwitchStmt, *ast.LabeledStmt:
 			bail("statement %T at %s", n, t.pos(n))
 		}
 		return true
@@ -420,7 +428,11 @@ func (t *tr) tupleType(vars []*types.Var) string {
 			ts = append(ts, "("+t.iter.accLean+")")
 			continue
 		}
-		ts = append(ts, t.lt(v.Type(), "variable "+v.Name()).lean)
+		if et := t.effTypeOf(v); et != "" {
+			ts = append(ts, "("+et+")")
+			continue
+		}
+		ts = append(ts, t.ltVar(v, "variable "+v.Name()).lean)
 	}
 	return strings.Join(ts, " × ")
 }
@@ -472,8 +484,17 @@ func (t *tr) block(list []ast.Stmt, vars []*types.Var, ind string) string {
 
 func (t *tr) resLean() string {
 	var rs []string
+	if t.eff && t.recvW {
+		rs = append(rs, t.lt(t.recvParam.Type(), "receiver").lean)
+	}
 	for _, r := range t.res {
 		rs = append(rs, r.lean)
+	}
+	if t.eff {
+		rs = append(rs, "List Go.Effect")
+		if t.useOrc {
+			rs = append(rs, "List Go.Val")
+		}
 	}
 	return strings.Join(rs, " × ")
 }
@@ -580,6 +601,8 @@ func (t *tr) stmts(list []ast.Stmt, k func() string, ind string) string {
 		return rest()
 	case *ast.ExprStmt:
 		return t.exprStmt(s, list[1:], k, ind)
+	case *ast.SendStmt:
+		return t.sendStmt(s, ind) + rest()
 	}
 	bail("statement %T at %s", list[0], t.pos(list[0]))
 	return ""
@@ -615,6 +638,9 @@ func (t *tr) returnStmt(s *ast.ReturnStmt, ind string) string {
 	if len(s.Results) == 0 {
 		if len(t.named) == 0 {
 			if len(t.res) == 0 {
+				if t.eff {
+					return t.retVals(nil)
+				}
 				bail("function without results")
 			}
 			bail("bare return at %s", t.pos(s))
@@ -623,11 +649,7 @@ func (t *tr) returnStmt(s *ast.ReturnStmt, ind string) string {
 		for _, v := range t.named {
 			ns = append(ns, t.names[v])
 		}
-		v := strings.Join(ns, ", ")
-		if len(ns) > 1 {
-			v = "(" + v + ")"
-		}
-		return t.ret(v)
+		return t.retVals(ns)
 	}
 	sig := t.p.info.Defs[t.fd.Name].(*types.Func).Type().(*types.Signature)
 	if len(s.Results) == 1 && len(t.res) > 1 {
@@ -647,6 +669,15 @@ func (t *tr) returnStmt(s *ast.ReturnStmt, ind string) string {
 			}
 		}
 		v := t.call(c, false)
+		if t.eff {
+			// the forwarded values become components of the result tuple
+			var ns []string
+			for range t.res {
+				ns = append(ns, t.fresh1("t_"))
+			}
+			t.binds = append(t.binds, fmt.Sprintf("let (%s) := %s\n", strings.Join(ns, ", "), v))
+			return t.flush(ind) + t.retVals(ns)
+		}
 		return t.flush(ind) + t.ret(v)
 	}
 	if len(s.Results) != len(t.res) {
@@ -678,11 +709,7 @@ func (t *tr) returnStmt(s *ast.ReturnStmt, ind string) string {
 		}
 		parts = append(parts, t.exprAs(r, rt, false))
 	}
-	v := parts[0]
-	if len(parts) > 1 {
-		v = "(" + strings.Join(parts, ", ") + ")"
-	}
-	return t.flush(ind) + t.ret(v)
+	return t.flush(ind) + t.retVals(parts)
 }
 
 // rhsFor translates the right-hand side of `v = rhs` / `v := rhs` (append forms are accepted here).
@@ -725,6 +752,9 @@ func (t *tr) assign(s *ast.AssignStmt, ind string) string {
 	}
 	// multi-value call: a, b := f(…)
 	if len(s.Lhs) > 1 && len(s.Rhs) == 1 {
+		if ta, isTA := ast.Unparen(s.Rhs[0]).(*ast.TypeAssertExpr); isTA && len(s.Lhs) == 2 {
+			return t.typeAssert2(s, ta, ind)
+		}
 		c, ok := ast.Unparen(s.Rhs[0]).(*ast.CallExpr)
 		if !ok {
 			bail("multi-value assignment from a non-call (map index, type assertion, channel receive) at %s", t.pos(s))
@@ -798,6 +828,14 @@ func (t *tr) assign(s *ast.AssignStmt, ind string) string {
 func (t *tr) assign1(lhs, rhs ast.Expr, ind string) string {
 	if id, ok := ast.Unparen(lhs).(*ast.Ident); ok {
 		if id.Name == "_" {
+			if c, ok := ast.Unparen(rhs).(*ast.CallExpr); ok {
+				if tv, isT := t.p.info.Types[c.Fun]; !(isT && tv.IsType()) {
+					if _, isTuple := t.typeOf(c).(*types.Tuple); !isTuple {
+						t.call(c, true) // `_ = f(…)`: a call whose value is dropped
+						return t.flush(ind)
+					}
+				}
+			}
 			// evaluated for its panics only
 			lt := t.ltOf(rhs)
 			if lt.k == kBytes {
@@ -811,12 +849,29 @@ func (t *tr) assign1(lhs, rhs ast.Expr, ind string) string {
 		if v == nil || !t.isLocal(v) {
 			bail("assignment to %s, which is not a local variable, at %s", id.Name, t.pos(lhs))
 		}
+		if t.opaqueVars[v] {
+			// an opaque local: only its nil-ness is kept
+			if !t.isOpaqueSource(rhs) {
+				bail("opaque local %s assigned from a non-opaque source at %s", id.Name, t.pos(lhs))
+			}
+			val := "false"
+			if !t.isNil(rhs) {
+				val = t.expr(rhs)
+			}
+			pre := t.flush(ind)
+			return pre + fmt.Sprintf("let %s : Bool := %s\n%s", t.declare(v), val, ind)
+		}
 		lt := t.lt(v.Type(), "variable "+id.Name)
 		val := t.rhsFor(rhs, v.Type(), v)
 		pre := t.flush(ind)
 		return pre + fmt.Sprintf("let %s : %s := %s\n%s", t.declare(v), lt.lean, val, ind)
 	}
 	dt := t.typeOf(lhs)
+	if t.g.leanType(dt, true).k == kList {
+		if _, isSel := ast.Unparen(lhs).(*ast.SelectorExpr); isSel {
+			return t.store(lhs, t.listAssign(lhs, rhs), ind)
+		}
+	}
 	val := t.exprAs(rhs, dt, false)
 	return t.store(lhs, val, ind)
 }
@@ -893,7 +948,10 @@ func (t *tr) update(e ast.Expr, val string) (*types.Var, string) {
 			bail("assignment to %s before its declaration at %s", x.Name, t.pos(e))
 		}
 		if _, isPtr := v.Type().Underlying().(*types.Pointer); isPtr {
-			bail("write through pointer %s at %s", x.Name, t.pos(e))
+			if v != t.recvParam {
+				bail("write through pointer %s at %s", x.Name, t.pos(e))
+			}
+			t.needRecvW() // state passing: the receiver is a value that is handed back (translate_eff.go)
 		}
 		return v, val
 	case *ast.SelectorExpr:
@@ -901,17 +959,21 @@ func (t *tr) update(e ast.Expr, val string) (*types.Var, string) {
 		if !ok || sel.Kind() != types.FieldVal {
 			bail("assignment to selector %s at %s", x.Sel.Name, t.pos(e))
 		}
-		if sel.Indirect() {
-			bail("write through a pointer (field %s) at %s", x.Sel.Name, t.pos(e))
+		if _, isPtr := t.typeOf(x.X).Underlying().(*types.Pointer); isPtr || sel.Indirect() {
+			// only through the receiver itself, in state-passing mode (the Ident case below checks it)
+			if id, ok := ast.Unparen(x.X).(*ast.Ident); !ok || t.recvParam == nil || t.varOf(id) != t.recvParam || len(sel.Index()) != 1 {
+				bail("write through a pointer (field %s) at %s", x.Sel.Name, t.pos(e))
+			}
 		}
-		if _, isPtr := t.typeOf(x.X).Underlying().(*types.Pointer); isPtr {
-			bail("write through a pointer (field %s) at %s", x.Sel.Name, t.pos(e))
-		}
+		t.noteRecvField(x, sel, true)
 		base := t.expr(x.X)
 		// build nested `with` for promoted fields
 		idx := sel.Index()
 		var build func(cur string, ty types.Type, idx []int) string
 		build = func(cur string, ty types.Type, idx []int) string {
+			if p, ok := ty.Underlying().(*types.Pointer); ok {
+				ty = p.Elem()
+			}
 			st := ty.Underlying().(*types.Struct)
 			f := st.Field(idx[0])
 			if t.g.leanType(f.Type(), true).k == kDrop {
@@ -1026,8 +1088,10 @@ func (t *tr) exprStmt(s *ast.ExprStmt, tail []ast.Stmt, k func() string, ind str
 		}
 		return t.store(lv, nv, ind) + rest()
 	}
-	bail("call statement (result discarded) at %s", t.pos(s))
-	return ""
+	// any other call in statement position: its value is dropped; what remains are its panics (pure callee) and
+	// its effects (effect mode, translate_eff.go)
+	t.call(c, true)
+	return t.flush(ind) + rest()
 }
 
 // ---------- if / switch ----------
@@ -1102,7 +1166,7 @@ func (t *tr) switchStmt(s *ast.SwitchStmt, tail []ast.Stmt, k func() string, ind
 		}
 	}
 	type arm struct {
-		cond string
+		list []ast.Expr
 		body []ast.Stmt
 	}
 	var arms []arm
@@ -1118,18 +1182,30 @@ func (t *tr) switchStmt(s *ast.SwitchStmt, tail []ast.Stmt, k func() string, ind
 			def = cc
 			continue
 		}
+		arms = append(arms, arm{cc.List, cc.Body})
+	}
+	// condOf translates the case expressions of one arm where Go evaluates them: after every earlier arm has
+	// failed to match. What they bind (effects of an atomic Load, …) is returned as a prefix that lives in the
+	// else-branch of the earlier arms. Only plain lets are accepted there (a case expression that can panic is
+	// rejected, as is one with effects when the arm lists several expressions).
+	condOf := func(a arm, in string) (string, string) {
 		var conds []string
-		for _, e := range cc.List {
+		for _, e := range a.list {
 			if s.Tag != nil {
 				conds = append(conds, "("+tag+" == "+t.expr(e)+")")
 			} else {
 				conds = append(conds, t.expr(e))
 			}
 			if len(t.binds) > 0 {
-				bail("case expression that can panic at %s", t.pos(e))
+				if !pureLets(t.binds) {
+					bail("case expression that can panic at %s", t.pos(e))
+				}
+				if len(a.list) > 1 {
+					bail("case list with effects at %s", t.pos(e))
+				}
 			}
 		}
-		arms = append(arms, arm{strings.Join(conds, " || "), cc.Body})
+		return t.flush(in), strings.Join(conds, " || ")
 	}
 	savedBrk := t.brk
 	defer func() { t.brk = savedBrk }()
@@ -1138,8 +1214,12 @@ func (t *tr) switchStmt(s *ast.SwitchStmt, tail []ast.Stmt, k func() string, ind
 		t.checkDeclared(vars, s)
 		t.brk = func() string { return t.wrapVal(t.tupleOf(vars)) }
 		e := ""
-		for _, a := range arms {
-			e += fmt.Sprintf("if %s then\n%s%s\n%selse ", a.cond, in, t.block(a.body, vars, in), ind)
+		for i, a := range arms {
+			cpre, cond := condOf(a, ind)
+			if cpre != "" && i > 0 {
+				cpre = "\n" + ind + cpre
+			}
+			e += cpre + fmt.Sprintf("if %s then\n%s%s\n%selse ", cond, in, t.block(a.body, vars, in), ind)
 		}
 		if len(arms) > 0 {
 			e += "\n" + in
@@ -1167,8 +1247,12 @@ func (t *tr) switchStmt(s *ast.SwitchStmt, tail []ast.Stmt, k func() string, ind
 		t.brk = nil
 	}
 	out := pre
-	for _, a := range arms {
-		out += fmt.Sprintf("if %s then\n%s%s\n%selse ", a.cond, in, t.stmts(a.body, after, in), ind)
+	for i, a := range arms {
+		cpre, cond := condOf(a, ind)
+		if cpre != "" && i > 0 {
+			cpre = "\n" + ind + cpre
+		}
+		out += cpre + fmt.Sprintf("if %s then\n%s%s\n%selse ", cond, in, t.stmts(a.body, after, in), ind)
 	}
 	if len(arms) > 0 {
 		out += "\n" + in
@@ -1334,6 +1418,10 @@ func (t *tr) rangeStmt(s *ast.RangeStmt, tail []ast.Stmt, k func() string, ind s
 }
 
 func (t *tr) forStmt(s *ast.ForStmt, tail []ast.Stmt, k func() string, ind string) string {
+	if !t.countedLoop(s) {
+		// no evident trip count: unrolled loopFuel times (translate_eff.go)
+		return t.whileLoop(s, tail, k, ind)
+	}
 	why := func(m string) { bail("for loop without an obvious bound (%s) at %s", m, t.pos(s)) }
 	init, ok := s.Init.(*ast.AssignStmt)
 	if !ok || init.Tok != token.DEFINE || len(init.Lhs) != 1 || len(init.Rhs) != 1 {
@@ -1406,6 +1494,68 @@ func (t *tr) forStmt(s *ast.ForStmt, tail []ast.Stmt, k func() string, ind strin
 	return pre + t.loopShell("Up", head, param, s, s.Body, tail, k, ind)
 }
 
+// countedLoop: s has the shape `for i := lo; i < hi; i++|i += c` with a trip count known on entry (forStmt).
+func (t *tr) countedLoop(s *ast.ForStmt) bool {
+	init, ok := s.Init.(*ast.AssignStmt)
+	if !ok || init.Tok != token.DEFINE || len(init.Lhs) != 1 || len(init.Rhs) != 1 {
+		return false
+	}
+	id, ok := init.Lhs[0].(*ast.Ident)
+	if !ok {
+		return false
+	}
+	iv := t.varOf(id)
+	if iv == nil {
+		return false
+	}
+	it := intInfo(iv.Type())
+	if !it.isInteger {
+		return false
+	}
+	cond, ok := s.Cond.(*ast.BinaryExpr)
+	if !ok || (cond.Op != token.LSS && cond.Op != token.LEQ) {
+		return false
+	}
+	cid, ok := ast.Unparen(cond.X).(*ast.Ident)
+	if !ok || t.varOf(cid) != iv {
+		return false
+	}
+	step := int64(0)
+	switch p := s.Post.(type) {
+	case *ast.IncDecStmt:
+		if pid, ok := p.X.(*ast.Ident); ok && t.varOf(pid) == iv && p.Tok == token.INC {
+			step = 1
+		}
+	case *ast.AssignStmt:
+		if p.Tok == token.ADD_ASSIGN && len(p.Lhs) == 1 {
+			if pid, ok := p.Lhs[0].(*ast.Ident); ok && t.varOf(pid) == iv {
+				if c, ok := t.constInt(p.Rhs[0]); ok && c > 0 {
+					step = c
+				}
+			}
+		}
+	}
+	if step == 0 {
+		return false
+	}
+	if it.bits != 0 && (step != 1 || cond.Op != token.LSS) {
+		return false
+	}
+	assigned := map[*types.Var]bool{}
+	for _, v := range t.assignedIn(s.Body) {
+		assigned[v] = true
+	}
+	if assigned[iv] {
+		return false
+	}
+	for v := range t.varsUsed(cond.Y) {
+		if assigned[v] {
+			return false
+		}
+	}
+	return true
+}
+
 // ---------- whole function ----------
 
 func (t *tr) function() {
@@ -1421,6 +1571,9 @@ func (t *tr) function() {
 	isIter := t.detectIter(sig)
 	if isIter {
 		t.setupIter()
+	}
+	if r := sig.Recv(); r != nil && r.Name() != "" && r.Name() != "_" {
+		t.recvParam = r
 	}
 	t.prescan(fd.Body)
 	var params []string
@@ -1447,7 +1600,13 @@ func (t *tr) function() {
 	for i := 0; i < sig.Params().Len(); i++ {
 		addParam(sig.Params().At(i), "parameter "+sig.Params().At(i).Name())
 	}
-	pre := ""
+	if t.eff && t.useOrc {
+		params = append(params, "(orc_ : List Go.Val)")
+	}
+	if t.eff && isIter {
+		bail("effects in an iterator function")
+	}
+	pre := t.setupEff()
 	for i := 0; i < sig.Results().Len(); i++ {
 		r := sig.Results().At(i)
 		if isIter && i == 0 {
@@ -1464,13 +1623,19 @@ func (t *tr) function() {
 			pre += fmt.Sprintf("let %s : %s := %s\n  ", t.declare(r), lt.lean, zeroOf(lt))
 		}
 	}
+	var k func() string
 	if len(t.res) == 0 {
-		bail("no results")
+		t.needEff() // a function without results is its effects
+		k = func() string { return t.retVals(nil) }
 	}
 	if len(t.named) != 0 && len(t.named) != len(t.res) {
 		bail("partly named results")
 	}
-	body := t.stmts(fd.Body.List, nil, "  ")
+	if t.recvW {
+		t.checkRecvNoEscape()
+	}
+	body := t.stmts(fd.Body.List, k, "  ")
+	t.checkOpaqueWrites()
 	t.emit(params, t.resLean(), pre+body)
 }
 
@@ -1480,7 +1645,22 @@ func (t *tr) emit(params []string, res string, body string) {
 		res = "Option (" + res + ")"
 	}
 	var out strings.Builder
-	fmt.Fprintf(&out, "/-- translated from %s (%s) -/\n", t.key, filepath.Base(t.p.fset.Position(fd.Pos()).Filename))
+	shape := ""
+	if t.eff {
+		var parts []string
+		if t.recvW {
+			parts = append(parts, "receiver after the call")
+		}
+		for range t.res {
+			parts = append(parts, "result")
+		}
+		parts = append(parts, "effect trace")
+		if t.useOrc {
+			parts = append(parts, "unused oracle values")
+		}
+		shape = "; effect mode: value = (" + strings.Join(parts, ", ") + ")"
+	}
+	fmt.Fprintf(&out, "/-- translated from %s (%s)%s -/\n", t.key, filepath.Base(t.p.fset.Position(fd.Pos()).Filename), shape)
 	sep := " "
 	if len(params) == 0 {
 		sep = ""
